@@ -8,6 +8,9 @@
 (*            "probe-reply"  a registered callback that returns the secondary (f+1)               *)
 (*            "probe-none"   a registered callback that returns nothing                           *)
 (*            "probe-raise"  a registered callback that raises                                    *)
+(*            "override-selfreply" / "override-none"  a callback registered by the application for a function    *)
+(*                           the handler also has a built-in handler for; it sends the secondary itself (when      *)
+(*                           the W-bit is set) / sends nothing, and returns nothing: the application took over      *)
 (*   body : "ok" (decodes against the catalogued structure) | "bad" (does not)                    *)
 (* Allowed(m) is the set of allowed sequences of outbound data messages that carry m's system     *)
 (* bytes, each as [s, f, hdr] (hdr = TRUE iff the body is the 10 header bytes of m, S9F5 only).    *)
@@ -28,10 +31,12 @@ Allowed(m) ==
        [] m.cls = "probe-reply" -> One(sec)
        [] m.cls = "probe-raise" -> One(abort)
        [] m.cls = "probe-none" -> None          \* the callback took over the answer itself (it sent none here)
+       [] m.cls = "override-selfreply" -> One(sec)
+       [] m.cls = "override-none" -> None
        [] m.cls = "builtin" -> IF m.body = "ok" THEN One(sec) \cup One(abort) ELSE One(abort) \cup One(sec)
   ELSE
      \* no reply expected; handled without error => no reply at all
-     CASE m.cls \in {"none", "probe-reply", "probe-none"} -> None
+     CASE m.cls \in {"none", "probe-reply", "probe-none", "override-selfreply", "override-none"} -> None
        [] m.cls = "probe-raise" -> None \cup One(abort)
        [] m.cls = "builtin" -> IF m.body = "ok" THEN None ELSE None \cup One(abort)
 
